@@ -5,7 +5,7 @@ use std::sync::RwLock;
 use std::sync::{Arc, Mutex};
 
 use crate::controls::{Control, RawControl};
-use crate::controls_impl::{build_tag, parse_controls};
+use crate::controls_impl::{build_tag, try_parse_controls};
 use crate::search::SearchItem;
 use crate::RequestId;
 
@@ -107,7 +107,10 @@ fn decode_inner(buf: &mut BytesMut) -> Result<Option<(RequestId, (Tag, Vec<Contr
         (maybe_controls, None)
     };
     let controls = match controls {
-        Some(controls) => parse_controls(controls),
+        Some(controls) => match try_parse_controls(controls) {
+            Some(controls) => controls,
+            None => return Err(decoding_error),
+        },
         None => vec![],
     };
     let msgid = match tags
